@@ -25,7 +25,8 @@ TwinRestart == /\ st = "drift" /\ ~bfresh
                /\ bwin' = <<>> /\ br' = 0
                /\ bfresh' = TRUE /\ off' = total
                /\ UNCHANGED <<stepdvars, hs, hin>>
-Next == Update \/ TwinRestart
+UReset == /\ st # "drift" /\ total > 0 /\ Reset /\ B!Reset /\ hs' = <<>> /\ hin' = <<>> /\ UNCHANGED <<bfresh, off>>
+Next == Update \/ TwinRestart \/ UReset
 Spec == Init /\ [][Next]_vars
 Bound == TLCGet("level") <= Depth
 
